@@ -86,6 +86,7 @@ type Obligation struct {
 }
 
 type Verifier struct {
+	calleeBindings []*Term // bindings of the closure whose contract is being applied
 	P       *Program
 	obls    map[string]*Obligation
 	order   []string
@@ -630,8 +631,16 @@ func (v *Verifier) jump(st *State, b *ssa.BasicBlock) bool {
 		return false
 	}
 	var spec *LoopSpec
+	specFr := fr // the frame whose variables the loop's clauses speak of
 	if c := v.contractFor(fr.fn); c != nil && c.Loops != nil {
 		spec = c.Loops[ord]
+	}
+	if spec == nil && v.topC != nil && len(st.frames) > 1 {
+		if m := v.topC.InlinedLoops[funcKey(fr.fn)]; m != nil && m[ord] != nil {
+			// invariants supplied by the function under verification for a loop of a callee inlined into it
+			spec = m[ord]
+			specFr = st.frames[0]
+		}
 	}
 	if spec == nil || st.initMod {
 		fr.visits[b.Index]++
@@ -641,7 +650,7 @@ func (v *Verifier) jump(st *State, b *ssa.BasicBlock) bool {
 		return true
 	}
 	name := fmt.Sprintf("%s/loop%d", v.fnLabel(st), ord)
-	env := v.specEnv(st, fr)
+	env := v.specEnv(st, specFr)
 	if !back {
 		for i, inv := range spec.Invariants {
 			g := env.evalBool(inv.Expr)
@@ -682,11 +691,11 @@ func (v *Verifier) jump(st *State, b *ssa.BasicBlock) bool {
 			v.havocked[f] = true
 		}
 		for _, m := range spec.Modifies {
-			v.havocNamed(st, fr, m)
+			v.havocNamed(st, specFr, m)
 		}
 		lwBefore := st.lw()
 		for _, m := range spec.Allocs {
-			cell := v.cellSortByName(v.pkgOf(fr.fn), m)
+			cell := v.cellSortByName(v.pkgOf(specFr.fn), m)
 			st.setHeap(cell, HeapExt(st.getHeap(cell), lwBefore))
 		}
 		st.havocLW()
@@ -698,7 +707,7 @@ func (v *Verifier) jump(st *State, b *ssa.BasicBlock) bool {
 		ci.lwAt = st.lw()
 		st.lastCut = len(st.pc)
 		ci.pcLen = len(st.pc)
-		env = v.specEnv(st, fr)
+		env = v.specEnv(st, specFr)
 		for _, inv := range spec.Invariants {
 			st.assume(env.evalBool(inv.Expr))
 		}
@@ -733,7 +742,7 @@ func (v *Verifier) jump(st *State, b *ssa.BasicBlock) bool {
 			And(Ge(ci.measure, IntLit(0)), Lt(m, ci.measure)), false)
 	}
 	// loop frame: heaps not named in modifies must be unchanged on old cells
-	v.frameCheck(st, ci.heap, st.allocd[ci.nAlloc:], ci.lwAt, spec.Modifies, fr, "frame:"+name, false)
+	v.frameCheck(st, ci.heap, st.allocd[ci.nAlloc:], ci.lwAt, spec.Modifies, specFr, "frame:"+name, false)
 	return false
 }
 
@@ -1638,6 +1647,13 @@ func (v *Verifier) next(st *State, in *ssa.Next) bool {
 	if c := v.contractFor(st.top().fn); c != nil && c.Loops != nil {
 		if ord, isHeader := v.loopsOf(st.top().fn).headers[st.top().block.Index]; isHeader && c.Loops[ord] != nil {
 			loopHasSpec = true
+		}
+	}
+	if !loopHasSpec && v.topC != nil && len(st.frames) > 1 {
+		if m := v.topC.InlinedLoops[funcKey(st.top().fn)]; m != nil {
+			if ord, isHeader := v.loopsOf(st.top().fn).headers[st.top().block.Index]; isHeader && m[ord] != nil {
+				loopHasSpec = true
+			}
 		}
 	}
 	if (!it.known || loopHasSpec) && !st.initMod && it.visited != nil {
